@@ -88,6 +88,9 @@ func (g *G) RandomSettings(full bool) Settings {
 	s.DurationFieldInteger = r.Bool()
 	s.FloatingPointPrecision = []int{-1, -1, -1, 0, 2, 10, 1, 40}[r.Intn(8)]
 	s.ErrMarshal = []int{0, 0, 0, 1, 2, 3, 4, 5, 6}[r.Intn(9)]
+	if g.P.CustomIface {
+		s.IfaceMarshal = []int{0, 0, 0, 0, 1, 1, 2}[r.Intn(7)]
+	}
 	if r.Chance(1, 2) {
 		// Caller() fields: a CallerMarshalFunc with a fixed (arbitrary) text makes them deterministic
 		s.CallerText = g.V.String()
